@@ -180,6 +180,15 @@ func (op _OpcodeType) decodeI(x uint32) (as abi.As, arg *abi.AsArgument, argRaw 
 	for i, ctx := range _AOpContextTable {
 		if ctx.Opcode == op {
 			if ctx.Funct3 == funct3 {
+				// 移位指令的 imm[11:6] 是 funct6(区分 SRLI/SRAI), imm[5:0] 是 shamt
+				if ctx.HasShamt {
+					if ctx.Funct7>>1 != x>>26 {
+						continue
+					}
+					imm &= 0b_11_1111
+					argRaw.Imm = imm
+					arg.Imm = imm
+				}
 				as = abi.As(i)
 				break
 			}
